@@ -31,18 +31,24 @@ def interval_value(node, toks):
     if kind == "paren":
         return interval_value(node[2][0], toks)
     if kind == "lit" and node[1] == "INTERVAL":
-        n = Fraction(str_value(toks[node[3] + 1][1]))
+        body = str_value(toks[node[3] + 1][1])
+        if not re.fullmatch(r"[+-]?[0-9]+(?:\.[0-9]+)?", body):
+            return ("malformed", body)      # '1e-06', '', ' 5': no engine reads these as a number of units
+        n = Fraction(body)
         mm, ss = _UNIT[toks[node[3] + 2][1].upper()]
         return (n * mm, n * ss)
     if kind == "neg":
         v = interval_value(node[2][0], toks)
-        if v is None:
-            return None
+        if v is None or v[0] == "malformed":
+            return v
         return (-v[0], -v[1]) if node[1] == "-" else v
     if kind == "add":
         a, b = interval_value(node[2][0], toks), interval_value(node[2][1], toks)
         if a is None or b is None:
             return None
+        for x in (a, b):
+            if x[0] == "malformed":
+                return x
         if node[1] == "+":
             return (a[0] + b[0], a[1] + b[1])
         return (a[0] - b[0], a[1] - b[1])
